@@ -19,7 +19,9 @@ MANIFEST = {
             '(incl. _quickselect on its random tape, _med, quantiles with key bookkeeping, _var, _isqrt, _mode, covariance) is '
             'compared exactly (value and consumed tape bits) with the implementation on every run; every function, secint and '
             'secfxp, is checked against Python statistics on exact Fractions, incl. data with wide ranges (max-min 31..2^12), negative '
-            'values and multimodal data, at m=1 and in the 3-party simulator (PRSS on and off, inputs shared by mpc.input).',
+            'values and multimodal data, at m=1 and in the 3-party simulator (PRSS on and off, inputs shared by mpc.input). Aliasing stream: every function is '
+            'called, the caller\'s data list is mutated in place before the result is awaited (m=1 -M1 asynchronous and m=3); the '
+            'result must be that of the list as passed (F-C34-2, quantiles late read, repaired by c83bbe4, is an ordinary case now).',
     'note': 'Trusted: Coq kernel + vm_compute; hand-written model (runtime.sum/in_prod/sorted/min_max/argmax/unit_vector/'
             'comparisons modelled by their documented value-level meaning); CPython 3.12 quantile formulas transcribed by hand. '
             'MISSING as theorems: quickselect_correct (so median/median_low/median_high/quantile points = order statistics is '
@@ -191,6 +193,111 @@ def multi_party(ctx):
                         want = [Fraction(rhu(e)) for e in ex] if exact else ex
                         if len(rec[fn]) != nq - 1 or any(abs(Fraction(g) - e) > tq for g, e in zip(rec[fn], want)):
                             ctx.violation('quantiles-%s-%s %s' % (method, stname, cfg), dict(key, fn=fn, got=rec[fn], expected=[float(e) for e in ex]))
+        # ---- aliasing: call, mutate the caller's list in place, then await; expected = result for the list as passed ------
+        if ctx.extra.get('sim_aborted'):
+            return
+        D = [10, 50, 30, 20, 40, 20]
+        Y = [3, 9, 1, 4, 7, 2]
+        MUT = {'reverse': lambda l: l.reverse(), 'overwrite0': lambda l: l.__setitem__(0, 1000),
+               'dellast': lambda l: l.__delitem__(-1), 'append': lambda l: l.append(77)}
+        fd, fy = [Fraction(a) for a in D], [Fraction(a) for a in Y]
+        INT = {'mean': rhu(statistics.mean(fd)), 'median': math.floor(statistics.median(fd)), 'median_low': statistics.median_low(D),
+               'median_high': statistics.median_high(D), 'mode': statistics.mode(D),
+               'quantiles2': [rhu(q) for q in statistics.quantiles(fd, n=2, method='inclusive')],
+               'quantiles4': [rhu(q) for q in statistics.quantiles(fd, n=4, method='exclusive')],
+               'variance': rhu(statistics.variance(fd)), 'pvariance': rhu(statistics.pvariance(fd)),
+               'stdev': math.isqrt(rhu(statistics.variance(fd))), 'pstdev': math.isqrt(rhu(statistics.pvariance(fd))),
+               'covariance': rhu(statistics.covariance(fd, fy))}
+        sxx = sum((a - statistics.mean(fd)) ** 2 for a in fd)
+        syy = sum((a - statistics.mean(fy)) ** 2 for a in fy)
+        sxy = statistics.covariance(fd, fy) * (len(D) - 1)
+        FXP = {'mean': float(statistics.mean(fd)), 'median': float(statistics.median(fd)), 'mode': float(statistics.mode(D)),
+               'quantiles2': [float(q) for q in statistics.quantiles(fd, n=2, method='inclusive')],
+               'variance': float(statistics.variance(fd)), 'stdev': math.sqrt(float(statistics.variance(fd))),
+               'correlation': float(sxy) / math.sqrt(float(sxx) * float(syy)), 'slope': float(sxy / sxx)}
+
+        def one_run(sim, prog, limit=25):
+            signal.setitimer(signal.ITIMER_REAL, limit, 5)
+            try:
+                return sim.run(prog, Fifo(), idle_limit=300)
+            except Watchdog:
+                ctx.extra['sim_aborted'] = True
+                return None
+            finally:
+                signal.setitimer(signal.ITIMER_REAL, 0)
+
+        def new_sim(m, t, no_prss):
+            sim = Sim(m, t, no_prss=no_prss, seed=ctx.seed * 53 + m, log_messages=False, track_tasks=False)
+            sim.start()
+            return sim if sim.started else None
+        na = 0
+        for (m, t, no_prss) in ((1, 0, False), (3, 1, False)) + (((3, 1, True),) if ctx.tier == 'thorough' else ()):
+            sim = new_sim(m, t, no_prss)
+            for stname, table in (('secint', INT), ('secfxp', FXP)):
+                for fn in table:
+                    for mu in MUT:
+                        if m == 3 and mu == 'reverse' and ctx.tier != 'thorough':
+                            continue
+                        if sim is None:
+                            sim = new_sim(m, t, no_prss)
+
+                        async def prog(mpc, mods, pid, fn=fn, mu=mu, stname=stname):
+                            ms = mods['mpyc.statistics']
+                            st = mpc.SecInt(32) if stname == 'secint' else mpc.SecFxp(32, FX)
+                            x = mpc.input([st(a) for a in D], senders=0)
+                            y = mpc.input([st(a) for a in Y], senders=0)
+                            junk = st(1000 if mu == 'overwrite0' else 77)
+                            if fn == 'quantiles2':
+                                r = ms.quantiles(x, n=2, method='inclusive')
+                            elif fn == 'quantiles4':
+                                r = ms.quantiles(x, n=4, method='exclusive')
+                            elif fn in ('covariance', 'correlation'):
+                                r = getattr(ms, fn)(x, y)
+                            elif fn == 'slope':
+                                r = ms.linear_regression(x, y).slope
+                            else:
+                                r = getattr(ms, fn)(x)
+                            for l in ((x, y) if fn in ('covariance', 'correlation', 'slope') else (x,)):
+                                if mu == 'reverse':
+                                    l.reverse()
+                                elif mu == 'overwrite0':
+                                    l[0] = junk
+                                elif mu == 'dellast':
+                                    del l[-1]
+                                else:
+                                    l.append(junk)
+                            v = await mpc.output(r)
+                            return [float(a) for a in v] if isinstance(v, list) else float(v)
+                        res = one_run(sim, prog)
+                        na += 1
+                        name = 'quantiles' if fn.startswith('quantiles') else ('linear_regression' if fn == 'slope' else fn)
+                        key = {'fn': fn, 'mutation': mu, 'm': m, 'st': stname, 'prss': not no_prss, 'data': D}
+                        ctx.case(key, kind='aliasing/' + name)
+                        sig = 'aliasing %s mutation=%s' % (name, mu)
+                        if res is None or any(isinstance(x_, (str, tuple)) for x_ in res):
+                            ctx.violation(sig, dict(key, got='HANG/EXC ' + str(res)[:200], why='the call never completes after the caller mutated its list'))
+                            try:
+                                sim.close()
+                            except Exception:  # noqa
+                                pass
+                            sim = None
+                            if ctx.extra.get('sim_aborted'):
+                                return
+                            continue
+                        v = res[0]
+                        if any(x_ != v for x_ in res[1:]):
+                            ctx.violation('sim-parties-disagree aliasing %s' % name, dict(key, per_party=res))
+                            continue
+                        want = table[fn]
+                        tol = 0 if stname == 'secint' else 2.0 ** -6
+                        vs, ws = (v, want) if isinstance(want, list) else ([v], [want])
+                        if len(vs) != len(ws) or any(abs(a - b) > tol for a, b in zip(vs, ws)):
+                            ctx.violation(sig, dict(key, got=v, expected_for_list_as_passed=want))
+            if sim is not None:
+                sim.shutdown()
+                sim.close()
+        ctx.extra['aliasing_cases'] = na
+        ctx.log('aliasing stream: %d (function, mutation, config) cases' % na)
     finally:
         signal.setitimer(signal.ITIMER_REAL, 0)
         signal.signal(signal.SIGALRM, old)
